@@ -235,7 +235,7 @@ def judge_subdaily(c, rec):
             full = pd.date_range(days[0].tz_convert("UTC"), days[-1].tz_convert("UTC"), freq="h", inclusive="left").tz_convert(tz)
             data = em.DailyBaselineData.from_series(m.rename("observed"), pd.Series(50 + 20 * rng.random(len(full)), index=full, name="temperature"),
                                                     is_electricity_data=False)
-    o = data.df["observed"]
+    o = data.df["observed"] if "observed" in data.df else pd.Series(np.nan, index=data.df.index)  # no valid day at all
     kinds = set()
     for k in range(c["nd"] - 1):  # the final day's last interval is open-ended
         a, b = days[k], days[k + 1]
@@ -283,7 +283,7 @@ def judge_daily(c, rec):
         else:
             data = em.DailyBaselineData.from_series(pd.Series(v, index=idx, name="observed"), pd.Series(T, index=idx, name="temperature"),
                                                     is_electricity_data=False)
-    o = data.df["observed"].reindex(idx)
+    o = (data.df["observed"] if "observed" in data.df else pd.Series(np.nan, index=data.df.index)).reindex(idx)
     g = o.values.astype(float)
     if not np.array_equal(np.isnan(g), np.isnan(v)) or not np.array_equal(g[~np.isnan(v)], v[~np.isnan(v)]):
         i = int(np.nonzero(~((g == v) | (np.isnan(g) & np.isnan(v))))[0][0])
